@@ -497,8 +497,9 @@ int64_t cmi_pool_acquire_inner(struct cmb_resourcepool *rpp,
         /* Wait at the front door until some more becomes available  */
         cmb_assert_debug(rem_claim > 0u);
         const int64_t sig = cmb_resourceguard_wait(&(rpp->guard), is_available, NULL);
-        if (sig == CMB_PROCESS_PREEMPTED) {
-            /* Got thrown out instead, unwind. */
+        if ((sig == CMB_PROCESS_PREEMPTED)
+            && (cmi_hash_find_index(hhp, key) == 0u)) {
+            /* Got thrown out of this pool instead, nothing left to unwind. */
             cmb_logger_info(stdout, "Preempted, returning empty-handed");
 
             return sig;
